@@ -50,26 +50,39 @@ type mutInst struct {
 	ngen   int
 	walker genIter // long-lived forward walker: one Next() per step, ForceReseek after each update
 	hist   []string
+	hcode  uint64 // exact code of the history: base-12 digits of the operation indices, then the length
 }
 
 // checked: histories whose oracles have been evaluated already in this process. BFS reaches a
 // state by replaying its history from a fresh instance; the state-evolving part of a step is
 // always executed, the (pure) oracle part only the first time a history is seen.
-var checked = map[string]bool{}
+var checked = map[uint64]struct{}{}
+
+// pool of instances (the search is serial inside a worker): avoids allocating and clearing ~8 KiB
+// of iterator storage per replay.
+var pool []*mutInst
+
+func (in *mutInst) Close() { pool = append(pool, in) }
 
 func newMut() mc.Instance {
 	rand.Seed(jobSeed)
-	in := &mutInst{t: database.VerifNewTreapMutable(), m: emptyModel(), prio: [4]int{-1, -1, -1, -1}}
+	var in *mutInst
+	if n := len(pool); n > 0 {
+		in, pool = pool[n-1], pool[:n-1]
+		in.pos, in.ngen, in.hist, in.hcode = 0, 0, in.hist[:0], 0
+	} else {
+		in = &mutInst{}
+	}
+	in.t, in.m, in.prio = database.VerifNewTreapMutable(), emptyModel(), [4]int{-1, -1, -1, -1}
 	in.walker = genIter{it: newIter(in.t, nil, nil), idx: -2}
 	return in
 }
 
 func (in *mutInst) Ops() []string { return allOps }
-func (in *mutInst) Close()        {}
 
 func (in *mutInst) makeGen() {
 	in.gen[0] = genIter{it: newIter(in.t, nil, nil), idx: -2}
-	in.gen[1] = genIter{it: newIter(in.t, nil, nil), idx: -1}
+	in.gen[1] = genIter{it: in.gen[0].it, idx: -1} // copies of a never-positioned iterator are fresh iterators
 	ex := &in.gen[1].it
 	ex.First()
 	for ex.Next() {
@@ -77,7 +90,7 @@ func (in *mutInst) makeGen() {
 	in.ngen = 2
 	for i, v := range in.m {
 		if v >= 0 {
-			in.gen[in.ngen] = genIter{it: newIter(in.t, nil, nil), idx: i}
+			in.gen[in.ngen] = genIter{it: in.gen[0].it, idx: i}
 			in.gen[in.ngen].it.Seek(keys[i])
 			in.ngen++
 		}
@@ -108,9 +121,13 @@ var softFail func(sig, what string, hist []string)
 
 func (in *mutInst) Apply(op string) *mc.Fail {
 	in.hist = append(in.hist, op)
-	hkey := strings.Join(in.hist, "")
-	first := !checked[hkey]
-	checked[hkey] = true
+	in.hcode = in.hcode*12 + uint64(opIndex(op))
+	hkey := in.hcode<<4 | uint64(len(in.hist))
+	_, seen := checked[hkey]
+	first := !seen
+	if first {
+		checked[hkey] = struct{}{}
+	}
 	if first {
 		in.makeGen() // iterators created BEFORE the update
 	} else {
@@ -148,7 +165,7 @@ func (in *mutInst) Apply(op string) *mc.Fail {
 		in.gen[i].it.ForceReseek()
 	}
 	in.walker.it.ForceReseek()
-	var cont, repo string
+	var cont, repoF, repoL, repoS string
 	for gx := 0; gx < in.ngen && first; gx++ {
 		gi := &in.gen[gx]
 		var wantN, wantP int
@@ -189,25 +206,26 @@ func (in *mutInst) Apply(op string) *mc.Fail {
 			}
 		}
 		// notified iterator that is then repositioned absolutely and moved on
-		if repo == "" {
+		if repoF == "" {
 			c := gi.it
 			ok := c.First()
 			if !entryOK(&c, ok, m, m.succ(-1)) {
-				repo = fmt.Sprintf("first|iterator state %d", gi.idx)
+				repoF = fmt.Sprintf("first|iterator state %d", gi.idx)
 			} else if ok && !atOK(&c, c.Next(), m, m.succ(m.succ(-1))) {
-				repo = fmt.Sprintf("first-next|iterator state %d: First then Next does not yield the second key", gi.idx)
+				repoF = fmt.Sprintf("first-next|iterator state %d: First then Next does not yield the second key", gi.idx)
 			}
 		}
-		if repo == "" {
+		if repoL == "" {
 			c := gi.it
 			ok := c.Last()
 			if !entryOK(&c, ok, m, m.pred(4)) {
-				repo = fmt.Sprintf("last|iterator state %d", gi.idx)
+				repoL = fmt.Sprintf("last|iterator state %d", gi.idx)
 			} else if ok && !atOK(&c, c.Prev(), m, m.pred(m.pred(4))) {
-				repo = fmt.Sprintf("last-prev|iterator state %d: Last then Prev does not yield the second-to-last key", gi.idx)
+				repoL = fmt.Sprintf("last-prev|iterator state %d: Last then Prev does not yield the second-to-last key", gi.idx)
 			}
 		}
-		for i := 0; i < 4 && repo == ""; i++ {
+		repo := &repoS
+		for i := 0; i < 4 && *repo == ""; i++ {
 			c := gi.it
 			w := i
 			if m[i] < 0 {
@@ -215,9 +233,11 @@ func (in *mutInst) Apply(op string) *mc.Fail {
 			}
 			ok := c.Seek(keys[i])
 			if !atOK(&c, ok, m, w) {
-				repo = fmt.Sprintf("seek|iterator state %d Seek(%s)", gi.idx, keys[i])
+				*repo = fmt.Sprintf("seek|iterator state %d Seek(%s)", gi.idx, keys[i])
 			} else if ok && !atOK(&c, c.Next(), m, m.succ(w)) {
-				repo = fmt.Sprintf("seek-next|iterator state %d: Seek(%s) then Next does not yield the successor", gi.idx, keys[i])
+				*repo = fmt.Sprintf("seek-next|iterator state %d: Seek(%s) then Next does not yield the successor", gi.idx, keys[i])
+			} else if c.Seek(keys[i]); ok && !atOK(&c, c.Prev(), m, m.pred(w)) {
+				*repo = fmt.Sprintf("seek-prev|iterator state %d: Seek(%s) then Prev does not yield the predecessor", gi.idx, keys[i])
 			}
 		}
 	}
@@ -225,9 +245,11 @@ func (in *mutInst) Apply(op string) *mc.Fail {
 		cl, txt, _ := strings.Cut(cont, "|")
 		f.add("reseek-continue|"+cl, "%s (model %v): iterator created before the update, notified with ForceReseek, does not continue with its neighbours (%s)", ctx, m, txt)
 	}
-	if repo != "" {
-		cl, txt, _ := strings.Cut(repo, "|")
-		f.add("reseek-reposition|"+cl, "%s (model %v): iterator created before the update, notified with ForceReseek, then repositioned (%s)", ctx, m, txt)
+	for _, repo := range []string{repoF, repoL, repoS} {
+		if repo != "" {
+			cl, txt, _ := strings.Cut(repo, "|")
+			f.add("reseek-reposition|"+cl, "%s (model %v): iterator created before the update, notified with ForceReseek, then repositioned (%s)", ctx, m, txt)
+		}
 	}
 	// long-lived walker
 	{
